@@ -368,6 +368,7 @@ def main(tier):
     rule_D(ck, units)
     rule_E(ck, units)
     import c11
+    c11.rule_J(ck, units)      # buffers of nonblocking operations are stable and alive until completion (shared with C11)
     c11.rule_H(ck, units)      # messages are taken from / put at their own slice (shared with C11)
     c11.rule_G(ck, units)      # transfer operators moved with keep_src stay intact for the next coarsening step (shared with C11)
     c11.rule_F(ck, units)      # global reductions use the operator of the local accumulation (shared with C11)
